@@ -97,6 +97,7 @@ def execute_plan(mod, plan):
         # every run starts in a fresh "process": no module state of the code under test, no
         # filesystem instance cache and no garbage of the previous run survives
         gc.collect()
+        boot.OPTIMIZE = int((plan.get("world") or {}).get("optimize", 0) or 0)
         _world.restart()
         out = run_enveloped(mod, plan)
     except BaseException as e:  # noqa: BLE001
@@ -106,6 +107,9 @@ def execute_plan(mod, plan):
     out.setdefault("violations", [])
     out.setdefault("keys", [])
     out.setdefault("stats", {})
+    if isinstance(out["stats"], dict) and not out.get("harness_error"):
+        key = "interpreter:-O%d" % boot.OPTIMIZE if boot.OPTIMIZE else "interpreter:default"
+        out["stats"][key] = out["stats"].get(key, 0) + 1
     out.setdefault("faults", dict(SIM.faults))
     out.setdefault("probes", dict(SIM.probes))
     out.setdefault("steps", len(SIM.log))
